@@ -11,7 +11,7 @@ from penman.tree import Tree
 
 from pv.gen import models, trees
 from pv.gen.base import EXOTIC
-from pv.harness import ROOT, Hyp
+from pv.harness import ROOT, Enum, Hyp
 from pv.props.c08 import split_keepends
 from pv.props.common import short
 from pv.ref import graphm, interp
@@ -66,6 +66,11 @@ def _build_text(case, m):
     text = sep.join(parts)
     if case.get('final_newline'):
         text += term
+    if case.get('repeat'):
+        text = (text + term) * case['repeat']
+        expected = expected * case['repeat']
+    if case.get('bom'):
+        text = '\ufeff' + text
     return text, expected
 
 
@@ -77,8 +82,26 @@ def check(case):
             return []
     f = []
     text, trees_ = _build_text(case, m)
+    # results of earlier calls belong to the caller: scribbling on them must not change what the text means afterwards
+    try:
+        if not case.get('bom'):
+            for t0 in penman.iterparse(text):
+                t0.metadata['__scribble'] = 'x'
+                t0.node[1].reverse()
+                t0.reset_variables('q{i}')
+            g0s = penman.loads(text, model=m)
+            for g0 in g0s:
+                g0.metadata['__scribble'] = 'x'
+                g0.triples.reverse()
+            for chunk in [text] if len(text) < 4000 else []:
+                t1 = penman.parse(chunk) if case['graphs'] else None
+                if t1 is not None:
+                    t1.metadata['__scribble'] = 'y'
+                    t1.node[1].append((':scribble', 'z'))
+    except DecodeError:
+        pass
     want = []
-    for t, gspec in zip(trees_, case['graphs']):
+    for t, gspec in zip(trees_, case['graphs'] * (case.get('repeat') or 1)):
         g = layout.interpret(t, m)
         sig = _gsig(g)
         if gspec.get('rawcomments'):
@@ -104,12 +127,17 @@ def check(case):
         ('filename', lambda: penman.load(path, model=m, encoding='utf-8')),
         ('fileobj', via_fileobj),
     ]
+    if len(case['graphs']) * (case.get('repeat') or 1) == 1 and not case.get('bom'):
+        containers.append(('decode', lambda: [penman.decode(text, model=m)]))
+        containers.append(('codec.decode', lambda: [penman.PENMANCodec(model=m).decode(text)]))
     outs = [(name, _outcome(fn)) for name, fn in containers]
     base = outs[0]
     for name, o in outs[1:]:
         if o != base[1]:
             f.append(('containers-disagree', '%s: str -> %s, %s -> %s' % (short(text, 200), short(base[1], 240), name, short(o, 240))))
             break
+    if case.get('bom'):
+        return f        # a leading U+FEFF is an ordinary name character: only agreement between the containers is asserted
     if base[1][0] != 'ok':
         f.append(('stream-rejected', '%s: DecodeError at %r' % (short(text, 200), base[1][1:])))
     else:
@@ -125,7 +153,7 @@ def check(case):
                     f.append((what, '%s: graph %d read as %s, written %s' % (short(text, 200), k, short(a, 240), short(b, 240))))
                     break
     # dumps/loads and dump/load
-    if not f and not any(g.get('rawcomments') for g in case['graphs']):
+    if not f and not case.get('repeat') and not any(g.get('rawcomments') for g in case['graphs']):
         gs = [layout.interpret(t, m) for t in trees_]
         s = penman.dumps(gs, model=m, indent=case['indent'], compact=case['compact'])
         back = _outcome(lambda: penman.loads(s, model=m))
@@ -182,8 +210,19 @@ def _cases(draw):
     return {'graphs': gs, 'model': spec, 'term': draw(st.sampled_from(['LF', 'CRLF', 'CR'])),
             'sep': draw(st.sampled_from(['blank', 'newline', 'space', 'none'])),
             'indent': draw(st.sampled_from([-1, None, 0, 2, 5])), 'compact': draw(st.booleans()),
-            'final_newline': draw(st.booleans())}
+            'final_newline': draw(st.booleans()), 'bom': draw(st.integers(0, 11)) == 0}
+
+
+def _huge_chunks(tier):
+    return [{'term': t, 'n': n} for t in ('LF', 'CRLF', 'CR') for n in ((900,) if tier == 'quick' else (900, 4000))]
+
+
+def _huge_cases(ch):
+    g = {'tree': ['a', [['/', 'alpha'], [':ARG0', ['b', [['/', 'beta~1']]]], [':mod', '"a string"']]], 'meta': {'id': '7', 'snt': 'a b c'}}
+    yield {'graphs': [g], 'model': {'name': 'default'}, 'term': ch['term'], 'sep': 'blank', 'indent': -1, 'compact': False,
+           'final_newline': True, 'repeat': ch['n']}
 
 
 def stages(tier):
-    return [Hyp('streams', _cases, 2500, 60000)]
+    return [Hyp('streams', _cases, 2500, 60000),
+            Enum('huge-streams', _huge_chunks, _huge_cases, 'one stream of 900 (thorough: 4000) graphs with metadata (> 64 Ki characters), per line terminator')]
